@@ -5,6 +5,7 @@ import (
 	"fmt"
 	mrand "math/rand"
 	"net"
+	"strconv"
 	"strings"
 
 	"github.com/theparanoids/ysshra/csr"
@@ -546,6 +547,35 @@ func (g *Gen) DriveC01() {
 			runs = append(runs, r)
 		}
 		g.Emit("history/directory-changes", SessionSpec{Dir: dir, Store0: g.Store0(g.R.Intn(3)), Runs: runs, Reuse: g.R.Intn(4) > 0})
+	}
+
+	// the request as it arrives: forced-command argv and sshd's environment, read by csr.NewReqParam as cmd/gensign
+	// does.  Legacy and JSON messages, every spelling of the hardware-key flag, both namespace policies.
+	for i, sp := range []string{"true", "True", "TRUE", "1", "t", "T", "false", "False", "FALSE", "0", "f", "F"} {
+		for _, format := range []string{"legacy", "json"} {
+			for _, ns := range []string{"NONS", "NSOK"} {
+				if format == "json" && i >= 2 && i != 6 {
+					continue // JSON has two spellings only
+				}
+				if ns == "NSOK" && i%3 != 0 {
+					continue
+				}
+				logname := LogNames[i%4]
+				user := users[i%len(users)]
+				hard, _ := strconv.ParseBool(sp)
+				var cmd string
+				if format == "legacy" {
+					cmd = fmt.Sprintf("IFVer=6 SSHClientVersion=8.1 req=%s@%s HardKey=%s Touch2SSH=%s", "wireuser", "wirehost.example.com", sp, core.Pick(g.R, "false", "true", "False"))
+				} else {
+					cmd = fmt.Sprintf(`{"ifVer":7,"username":"wireuser","hostname":"wirehost.example.com","sshClientVersion":"8.1","hardKey":%v}`, hard)
+				}
+				w := &WireSpec{Cmd: cmd, LogName: logname, Conn: "10.1.2.3 50000 10.0.0.1 22", Argv: []string{"/usr/bin/gensign", ns, "regular"}}
+				p := Params(ns, logname, "wireuser", "wirehost.example.com", "10.1.2.3", "", hard, 0, false)
+				run := RunSpec{Params: p, Wire: w, Handlers: []HandlerSpec{g.Regular(nil, FullKeyIDs())}, Beh: Beh{Kind: BHonest, Key: user}, Signer: OneCert()}
+				dir := g.addBystanders(g.DirFor(logname, 1, user, user), logname)
+				g.Emit("wire/"+format+"/hardkey="+sp, SessionSpec{Dir: dir, Store0: g.Store0(g.R.Intn(2)), Runs: []RunSpec{run}})
+			}
+		}
 	}
 
 	// handler lists with any accept / reject / panic pattern
